@@ -15,4 +15,4 @@ Extraction "model.ml"
   rule_unique rule_subrange reassemble mkDecl
   rule_symbolic
   rule_const_init rule_const_not_fb rule_global_const rule_task rule_enum_value rule_fb_call rule_stdlib xform_type_init
-  parse_expr_text render_expr parse_fb_text parse_fbd_text parse_lib_text render_list render_decls.
+  parse_expr_text render_expr parse_fb_text parse_fbd_text parse_lib_text parse_lib2_text render_list render_decls.
